@@ -1,0 +1,9 @@
+//go:build verif
+
+package engine
+
+// VerifParseSQL exposes the session's tokenise+parse path to external runtime
+// monitors. Compiled only with -tags verif.
+func VerifParseSQL(q string) (interface{}, error) {
+	return parseSQL(q)
+}
